@@ -22,6 +22,8 @@ LEXEMES = [
     "<pages from=1 to=99999999 index=x />", "<pages from=5 to=3 index=x />",
     "<imagemap>\nImage:x.png|100px\npoly 10 20 30 40 ... [[K]]\nrect 1.2.3 4 5 6 [[x]]\ncircle . 2 3 [[y]]\ndefault [[z]]\n</imagemap>",
     "<imagemap>\nImage:x.png|100px\nrect " + "1" * 5000 + " 2 3 4 [[x]]\n</imagemap>",
+    # a heading line that a table start / a cell separator splits across token lists
+    "\n== a <table> b ==\n", "\n== a || b ==\n",
     # templates that include themselves through a tag whose body is parsed by a nested parser
     "{{SelfRef}}", "{{SelfPoem}}", "{{SelfGallery}}",
     "<td style=\"overflow:auto;height:200px\">x</td>", "<h2>", "</h2>", "<p>", "<blockquote>", "<small>", "<sup>", "<u>", "<s>",
